@@ -33,7 +33,7 @@ func implDescr(b []byte) string {
 
 func runC15(ctx *Ctx) {
 	var texts [][]byte
-	enumStrings([]byte{'a', ' ', '\t', '\n', '\r', '(', ')', '#'}, ctx.Budget(6, 7), func(s []byte) {
+	enumStrings([]byte{'a', ' ', '\t', '\n', '\r', '(', ')', '#'}, ctx.Len(6, 7), func(s []byte) {
 		texts = append(texts, append([]byte(nil), s...))
 	})
 	r := ctx.Rng.Fork()
@@ -119,7 +119,7 @@ func descrNormalForm(d []byte) string {
 	}
 	common := ind
 	for _, l := range lines[1:] {
-		if len(l) == 0 {
+		if isBlank(l) {
 			continue
 		}
 		for !bytes.HasPrefix(l, common) {
